@@ -15,6 +15,8 @@ import (
 
 // Gen is the loaded program plus contracts.
 type Gen struct {
+	implOf         map[*ssa.Function]*Contract // concrete method -> interface contract it is checked against
+	typeInv        map[string]*ssa.Function    // typeKey -> invariant (heap dependent, re-assumed after unknown code)
 	createInv      map[string]*ssa.Function
 	repo           string
 	prog           *ssa.Program
@@ -205,6 +207,25 @@ func loadAll(repo string) (*Gen, error) {
 	}
 	resolveTF(cs.Stable, g.stable)
 	resolveTF(cs.JSPreserved, g.jsPreserved)
+	g.typeInv = map[string]*ssa.Function{}
+	for _, ti := range cs.TypeInv {
+		sp := g.pkgs[ti[0]]
+		if sp == nil {
+			continue
+		}
+		tn := strings.TrimPrefix(ti[1], "*")
+		obj := sp.Pkg.Scope().Lookup(tn)
+		fn := sp.Func(ti[2])
+		if obj == nil || fn == nil {
+			cs.Errors = append(cs.Errors, "typeinv: unknown type or function: "+ti[1]+" "+ti[2])
+			continue
+		}
+		var t types.Type = obj.Type()
+		if strings.HasPrefix(ti[1], "*") {
+			t = types.NewPointer(t)
+		}
+		g.typeInv[typeKey(t)] = fn
+	}
 	g.createInv = map[string]*ssa.Function{}
 	for _, ci := range cs.CreateInv {
 		sp := g.pkgs[ci[0]]
@@ -218,6 +239,16 @@ func loadAll(repo string) (*Gen, error) {
 			continue
 		}
 		g.createInv[typeKey(obj.Type())] = fn
+	}
+	g.implOf = map[*ssa.Function]*Contract{}
+	for _, ic := range cs.All {
+		if ic.IsIface && len(ic.Errors) == 0 && g.pkgs[ic.PkgDir] != nil {
+			for _, d := range g.ifaceImpls(ic) {
+				if g.contracts[d.Fn] == nil {
+					g.implOf[d.Fn] = ic
+				}
+			}
+		}
 	}
 	for _, cl := range cs.Axioms {
 		sp := g.pkgs[cl.Owner.PkgDir]
